@@ -68,8 +68,16 @@ AREAS = [
  ("slog/stack.go, slog/cmn.go, slog/init.go, slog/colorize_tool.go, slog/internal/times, slog/internal/strings", "DEFENSIVE changes that cannot alter behaviour for any input: redundant-but-harmless checks, explicit zero values, comments, renamed locals, constants, equivalent arithmetic"),
 ]
 
+AREAS2 = [
+ ("the record printer in slog/entry.go: print, printImpl, printTimestamp, printLoggerName, printSeverity, printMsg, printFirstLineOfMsg, printRestLinesOfMsg, printPC, printOut (both entry_nolock.go and entry_lock.go) and logContext", "RESTRUCTURING of the print path that keeps every byte: regrouping the calls into helper methods, hoisting common code out of mode branches, turning if/else chains on the mode into switch statements, naming constants, early returns, passing values as parameters instead of re-reading fields (or the reverse)"),
+ ("the value encoder in slog/pc.go (appendValue and the append*/xxxSliceTo/itoaS/ftoaS helpers, appendQuotedString and the strconv clones, appendTimestamp, appendError*) and slog/attr.go (serializeAttrs, dedupeSlice, Group, Attrs)", "SIMPLIFICATION that keeps every byte: merging sibling helpers through generics, table-driven forms, removing dead branches and unreachable code, equivalent loop forms, splitting long functions, local renames"),
+ ("writers, levels and bridges: slog/writers.go (dualWriter, LWs, logwr, filewr), slog/level.go (RegisterLevel, ParseLevel, Marshal*/Unmarshal*, ShortTag, Enabled), slog/funcs.go (package-level verbs, logctx/logctxctx, argsToAttrs, handlerWriter), slog/adapters.go (handler4LogSlog)", "MAINTENANCE changes that keep behaviour: private helper extraction for repeated code, guard clauses, equivalent standard-library calls (slices, maps, strings.Cut*), consistent naming, reordering of independent statements"),
+ ("hierarchy and configuration in slog/entry.go (newentry, newChildLogger, New, With*/Set*, Parent/Root/Each/forEachLogger, SetContextKeys, collectArgs, walkParentAttrs, fromCtx) plus slog/stack.go, slog/cmn.go, slog/init.go", "CLARITY changes that keep behaviour: type switches for assertion chains, early returns, helper extraction, named constants, equivalent boolean forms, iterative form of a tail-recursive helper ONLY if the visiting order is provably the same"),
+]
+
 def benign(base, first):
-    for i, (area, theme) in enumerate(AREAS):
+    areas = AREAS2 if os.environ.get("BENIGN_SET") == "2" else AREAS
+    for i, (area, theme) in enumerate(areas):
         rid = f"R{first+i}"
         wt, out = f"{base}/{rid}", f"{base}-out/{rid}"
         os.makedirs(out, exist_ok=True)
